@@ -226,7 +226,7 @@ pub fn run(ctx: &Ctx) -> Report {
         return rep;
     }
     // wl 1: cross product (quick: a stride through it)
-    let n1 = if ctx.quick() { 150_000 } else { CROSS_TOTAL.min(6_000_000) };
+    let n1 = if ctx.quick() { 600_000 } else { CROSS_TOTAL.min(12_000_000) };
     let stride = (CROSS_TOTAL / n1).max(1) | 1;
     run_cases(ctx, &mut rep, 1, ctx.n(n1 / 64, n1 / 64), |l, _rng, i| {
         let mut n = 0;
@@ -242,7 +242,7 @@ pub fn run(ctx: &Ctx) -> Report {
         l.op_n("parse entry points", n);
     });
     // wl 2: single-character edits of sentences
-    run_cases(ctx, &mut rep, 2, ctx.n(300, 4000), |l, rng, i| {
+    run_cases(ctx, &mut rep, 2, ctx.n(1500, 12_000), |l, rng, i| {
         let s = sentence(rng).into_bytes();
         let mut n = check_string(l, &s);
         let step = if ctx.scale < 1.0 { 7 } else { 1 };
@@ -274,7 +274,7 @@ pub fn run(ctx: &Ctx) -> Report {
         }
     });
     // wl 3: generated sentences with random numbers and spellings, plus byte-level noise incl. non-UTF-8
-    run_cases(ctx, &mut rep, 3, ctx.n(2000, 80_000), |l, rng, _| {
+    run_cases(ctx, &mut rep, 3, ctx.n(10_000, 200_000), |l, rng, _| {
         let mut n = 0;
         for _ in 0..ctx.inner(64) {
             let s = sentence(rng).into_bytes();
